@@ -50,6 +50,12 @@ def bump3(u: int, a: array[int, 2], v: int) -> None:
     a[1] += u - v
 
 @guppy
+def adv(sel: array[int, 1], k: int, j: int, v: int) -> int:
+    result("e", k)
+    sel[0] = j
+    return v
+
+@guppy
 def boom(k: int) -> int:
     result("e", k)
     panic("boom")
@@ -76,6 +82,7 @@ class G:
         self.leaves = 0
         self.max_leaves = max_leaves
         self.wcount = 0
+        self.selval = 0  # current value of sel[0] (programs using `sel`)
 
     def d(self, s):
         return self.draw(s)
@@ -98,6 +105,17 @@ class G:
             if not self.allow_known and has_effect(t):
                 nl = True
         return out
+
+    no_sub2 = False
+
+    def after_borrow(self, depth, nl):
+        """an argument evaluated while a row of xss is lent to the same call: reading xss there
+        is a (legitimate) run-time borrow panic in Guppy and not in Python, so no xss reads"""
+        self.no_sub2 = True
+        try:
+            return self.int_tree(depth, nl=nl)
+        finally:
+            self.no_sub2 = False
 
     def int_tree(self, depth=0, small=None, nl=False, pure=False):
         """small=(lo,hi): value guaranteed within range (used for indices); nl: no lifted
@@ -137,7 +155,7 @@ class G:
             n = self.d(st.integers(2, 3))
             return ("tupidx", self.seq([lambda m: self.int_tree(D, nl=m)] * n, nl), self.d(st.integers(0, n - 1)))
         if r == 12:
-            if self.d(st.integers(0, 2)) == 0:
+            if self.d(st.integers(0, 2)) == 0 and not self.no_sub2:
                 # nested subscript read: unless known shapes are allowed, at most one index has an effect
                 i1 = self.int_tree(D, small=(0, 1), nl=nl)
                 i2 = self.int_tree(D, small=(0, 1), nl=nl, pure=(not self.allow_known and has_effect(i1)))
@@ -276,6 +294,8 @@ def render(t):
         return f"({t[1]} := {render(t[2])})"
     if k == "boom":
         return f"boom({t[1]})"
+    if k == "adv":
+        return f"adv(sel, {t[1]}, {t[2]}, {t[3]})" if t[3] >= 0 else f"adv(sel, {t[1]}, {t[2]}, ({t[3]}))"
     if k == "mz":
         return f"mz({t[1]})"
     if k == "not":
@@ -295,7 +315,7 @@ def render(t):
 def children(t):
     """operands in Python evaluation order"""
     k = t[0]
-    if k in ("ti", "tb", "tf", "lit", "flit", "blit", "boom", "mz"):
+    if k in ("ti", "tb", "tf", "lit", "flit", "blit", "boom", "mz", "adv"):
         return []
     if k in ("bin", "fbin", "cmp", "fcmp"):
         return [t[2], t[3]]
@@ -323,7 +343,7 @@ def children(t):
 
 
 def has_effect(t):
-    if t[0] in ("ti", "tb", "tf", "boom", "mz", "g2", "g3"):
+    if t[0] in ("ti", "tb", "tf", "boom", "mz", "g2", "g3", "adv"):
         return True
     return any(has_effect(c) for c in children(t))
 
@@ -335,13 +355,13 @@ def has_lifted(t):
 
 
 def count_effect_leaves(t):
-    n = 1 if t[0] in ("ti", "tb", "tf", "boom", "mz") else 0
+    n = 1 if t[0] in ("ti", "tb", "tf", "boom", "mz", "adv") else 0
     return n + sum(count_effect_leaves(c) for c in children(t))
 
 
 def under_shortcircuit(t, inside=False):
     """is some effectful leaf under a short-circuit / conditional / chained node?"""
-    if t[0] in ("ti", "tb", "tf", "boom", "mz"):
+    if t[0] in ("ti", "tb", "tf", "boom", "mz", "adv"):
         return inside
     ins = inside or t[0] in ("ifexp", "and", "or", "chain")
     return any(under_shortcircuit(c, ins) for c in children(t))
@@ -383,7 +403,13 @@ def seq_issues(trees):
     return out
 
 
-def _one(draw, allow_known=False, max_depth=4, prefix="", allow_boom=True):
+ALL_KINDS = ["assign", "if", "while", "return", "args", "aug", "setitem", "augitem", "augitem",
+             "augitem2", "borrowarg", "result", "tuple", "assign", "augsel", "borrow3"]
+#: statements whose subject is an array element place (C19)
+PLACE_KINDS = ["setitem", "augitem", "augitem2", "borrowarg", "augsel", "augsel", "borrow3", "borrow3"]
+
+
+def _one(draw, allow_known=False, max_depth=4, prefix="", allow_boom=True, kinds=None):
     """-> dict(body=<helper fdefs + main function named {prefix}main>, labels, nontrivial, excluded)"""
     g = G(draw, max_depth=max_depth, allow_known=allow_known, allow_boom=allow_boom)
     lines = ["xs = array(10, 20, 30)", "xss = array(array(1, 2), array(3, 4))"]
@@ -395,8 +421,7 @@ def _one(draw, allow_known=False, max_depth=4, prefix="", allow_boom=True):
     fdefs = []
     for si in range(n_stmts):
         g.leaves = 0
-        kind = draw(st.sampled_from(["assign", "if", "while", "return", "args", "aug", "setitem", "augitem", "augitem",
-                                     "augitem2", "borrowarg", "result", "tuple", "assign"]))
+        kind = draw(st.sampled_from(kinds or ALL_KINDS))
         labels.add("stmt:" + kind)
         for _attempt in range(6):
             saved = (g.k, g.boomed, g.wcount)
@@ -450,13 +475,43 @@ def _one(draw, allow_known=False, max_depth=4, prefix="", allow_boom=True):
                 # followed / preceded by other effectful arguments
                 form = draw(st.integers(0, 1))
                 if form == 0:
-                    ts = g.seq([lambda n: g.int_tree(2, small=(0, 1), nl=True), lambda n: g.int_tree(1, nl=n)], False)
+                    ts = g.seq([lambda n: g.int_tree(2, small=(0, 1), nl=True), lambda n: g.after_borrow(1, n)], False)
                     st_lines = [f"bump(xss[{render(ts[0])}], {render(ts[1])})"]
                 else:
-                    ts = g.seq([lambda n: g.int_tree(1, nl=n), lambda n: g.int_tree(2, small=(0, 1), nl=True), lambda n: g.int_tree(1, nl=n)], False)
+                    ts = g.seq([lambda n: g.int_tree(1, nl=n), lambda n: g.int_tree(2, small=(0, 1), nl=True), lambda n: g.after_borrow(1, n)], False)
                     st_lines = [f"bump3({render(ts[0])}, xss[{render(ts[1])}], {render(ts[2])})"]
                 st_lines += ['result("xss0", xss[0])', 'result("xss1", xss[1])']
                 iss = seq_issues(ts)
+            elif kind == "augsel":
+                # the index is itself a place (`sel[0]`) that the right-hand side changes: the element
+                # read and the element written are the one selected when the statement starts
+                two_d = g.selval <= 1 and draw(st.booleans())
+                j = draw(st.integers(0, 1 if two_d else 2))
+                a = ("adv", g.nk(), j, draw(st.integers(-3, 5)))
+                form = draw(st.integers(0, 2))
+                other = g.int_tree(2, nl=True)
+                val = a if form == 0 else ("bin", "+", a, other) if form == 1 else ("bin", "-", other, a)
+                ts = [val]
+                op = draw(st.sampled_from(["+=", "-=", "*="]))
+                if two_d:
+                    st_lines = [f"xss[sel[0]][{draw(st.integers(0, 1))}] {op} {render(val)}",
+                                'result("xss0", xss[0])', 'result("xss1", xss[1])', 'result("sel", sel[0])']
+                else:
+                    st_lines = [f"xs[sel[0]] {op} {render(val)}", 'result("xs", xs)', 'result("sel", sel[0])']
+                iss = issues(val)
+                g.selval_next = j
+            elif kind == "borrow3":
+                # an element two subscript levels down that is not copyable (an inner array) lent to a
+                # call: both indices are evaluated once and it is given back to the slot it came from
+                i1 = g.int_tree(2, small=(0, 1), nl=True)
+                i2 = g.int_tree(2, small=(0, 1), nl=True, pure=(not allow_known and has_effect(i1)))
+                v = g.int_tree(1, nl=True)
+                ts = [i1, i2, v]
+                st_lines = [f"bump(xsss[{render(i1)}][{render(i2)}], {render(v)})"]
+                st_lines += [f'result("xsss{a_}{b_}", xsss[{a_}][{b_}])' for a_ in (0, 1) for b_ in (0, 1)]
+                iss = seq_issues(ts)
+                if has_effect(i1) and has_effect(i2):
+                    iss.add("nested_subscript_order")
             elif kind == "result":
                 ts = [g.int_tree()]
                 st_lines = [f'result("v", {render(ts[0])})']
@@ -465,6 +520,8 @@ def _one(draw, allow_known=False, max_depth=4, prefix="", allow_boom=True):
                 ts = g.seq([lambda n: g.int_tree(1, nl=n), lambda n: g.bool_tree(1, nl=n)], False)
                 st_lines = [f"p{si}, q{si} = {render(ts[0])}, {render(ts[1])}", f'result("v", p{si})', f'result("w", q{si})']
                 iss = seq_issues(ts)
+            if kind != "augsel":
+                g.selval_next = g.selval
             if iss and not allow_known:
                 # regenerate (bounded); count exclusion
                 known |= iss
@@ -478,13 +535,19 @@ def _one(draw, allow_known=False, max_depth=4, prefix="", allow_boom=True):
             st_lines = [f'result("v", {render(ts[0])})']
             iss = set()
         g.max_depth = max_depth
+        if kind == "augsel" and "sel = array(0)" not in lines:
+            lines.insert(2, "sel = array(0)")
+        if kind == "augsel" and ts and ts[0][0] != "ti":
+            g.selval = g.selval_next
+        if kind == "borrow3" and not any(l.startswith("xsss = ") for l in lines):
+            lines.insert(2, "xsss = array(array(array(1, 2), array(3, 4)), array(array(5, 6), array(7, 8)))")
         if iss:
             labels |= {"known:" + i for i in iss}
         lines += st_lines
         for t in ts:
             max_leafcount = max(max_leafcount, sum(count_effect_leaves(x) for x in ts))
             sc = sc or under_shortcircuit(t)
-            for name in ("ifexp", "and", "or", "chain", "walrus", "boom", "mz", "sub", "field", "tupidx", "g2", "g3"):
+            for name in ("ifexp", "and", "or", "chain", "walrus", "boom", "mz", "sub", "field", "tupidx", "g2", "g3", "adv"):
                 if _contains(t, name):
                     labels.add("has:" + name)
     body = "\n".join("    " + l for l in lines)
@@ -494,21 +557,21 @@ def _one(draw, allow_known=False, max_depth=4, prefix="", allow_boom=True):
 
 
 @st.composite
-def programs(draw, allow_known=False, max_depth=4):
+def programs(draw, allow_known=False, max_depth=4, kinds=None):
     """-> dict(src, labels, nontrivial, excluded)"""
-    r = _one(draw, allow_known, max_depth)
+    r = _one(draw, allow_known, max_depth, kinds=kinds)
     r["src"] = HELPERS + "\n" + r.pop("body")
     return r
 
 
 @st.composite
-def program_batches(draw, k=5, allow_known=False, max_depth=4):
+def program_batches(draw, k=5, allow_known=False, max_depth=4, kinds=None):
     """k programs in one module (one selene build); only the last one may panic.
     -> dict(src, parts=[{src, labels, nontrivial, excluded}])"""
     parts = []
     bodies = []
     for i in range(k):
-        r = _one(draw, allow_known, max_depth, prefix=f"p{i}_", allow_boom=(i == k - 1))
+        r = _one(draw, allow_known, max_depth, prefix=f"p{i}_", allow_boom=(i == k - 1), kinds=kinds)
         b = r.pop("body")
         bodies.append(b)
         r["src"] = HELPERS + "\n" + b + f"\n@guppy\ndef main() -> None:\n    p{i}_main()\n"
